@@ -1845,14 +1845,15 @@ class UTPM(Ring, RawAlgorithmsMixIn):
             return tmp
 
         else:
-            retval = numpy.zeros((N,N))
+            # the symmetric rank-d array of all d-th order partial derivatives (the Hessian for d = 2)
+            retval = numpy.zeros((N,)*d + tmp.shape[1:], dtype=tmp.dtype)
             mi = exint.generate_multi_indices(N,d)
             pos = exint.convert_multi_indices_to_pos(mi)
 
             for ni in range(mi.shape[0]):
                 # print 'ni=',ni, mi[ni], pos[ni], tmp[ni]
                 for perm in exint.generate_permutations(list(pos[ni])):
-                    retval[perm[0],perm[1]] = tmp[ni]*numpy.max(mi[ni])
+                    retval[tuple(perm)] = tmp[ni]*exint.multi_index_factorial(mi[ni])
 
             return retval
 
